@@ -457,6 +457,7 @@ def run(ctx):
     mixed_style_port(ctx)
     header_entries_from_plugins(ctx)
     encoded_arrays_next_to_string_replies(ctx)
+    clone_location_stays_with_clone(ctx)
     lookup_walk_two_preemptions(ctx)
     sys.setswitchinterval(old_switch)
     ctx.sample({"style": "encoded", "scenario": "two-calls", "preempt_after_event": 1234})
@@ -638,6 +639,39 @@ def encoded_arrays_next_to_string_replies(ctx):
         ctx.dist["schedule:encoded-array+string-reply"] += 1
         if errs or [r if r is None else r[0] for r in res] != ["ok", "ok"]:
             ctx.fail("a call failed because another was in progress", meta, [errs, res], "both calls finish")
+
+
+def clone_location_stays_with_clone(ctx):
+    """An endpoint set on a clone is the clone's: calls through the original go to the declared endpoint before,
+    between and after calls through the clone - one after another and with both in flight."""
+    from harness.props import c15
+    tr = wsdlkit.RecordingTransport(reply=None)
+    client = wsdlkit.client(c15.wsdl_two_ops("http://h.invalid/declared"), transport=tr)
+    clone = client.clone()
+    clone.set_options(location="http://clone.invalid/elsewhere")
+    ctx.case(("clone-location", "sequential"), True)
+    del tr.sent[:]
+    for c_ in (client, clone, client, clone, client):
+        c_.service.f()
+    urls = [s_["url"] for s_ in tr.sent]
+    want = ["http://h.invalid/declared", "http://clone.invalid/elsewhere"] * 2 + ["http://h.invalid/declared"]
+    if urls != want:
+        ctx.fail("a call through the original went to the endpoint set on its clone (or the other way round)",
+                 {"scenario": "clone-location/sequential"}, urls, want)
+    calls = [lambda: client.service.f(), lambda: clone.service.g()]
+    res, total, errs = run_schedule(calls, {})
+    for k in sorted(set(int(1 + i * (total / 2 - 1) / 8.0) for i in range(9))):
+        del tr.sent[:]
+        res, nev, errs = run_schedule(calls, {k: 1})
+        meta = {"scenario": "clone-location", "preempt_after_event": k}
+        ctx.case(common.canon(meta), True)
+        ctx.dist["schedule:clone-location"] += 1
+        got = sorted([s_["url"], s_["headers"].get("SOAPAction") if not isinstance(s_["headers"].get("SOAPAction"), bytes)
+                      else s_["headers"].get("SOAPAction").decode()] for s_ in tr.sent)
+        want = sorted([["http://h.invalid/declared", '"urn:act:f"'], ["http://clone.invalid/elsewhere", '"urn:act:g"']])
+        if errs or got != want:
+            ctx.fail("a call through the original went to the endpoint set on its clone (or the other way round)", meta,
+                     [errs, got], want)
 
 
 def mixed_style_wsdl():
